@@ -129,7 +129,7 @@ func (executor) EndBlock(b *types.Block, _ events.Fireable, _ *types.PartSetHead
 		if !next.Update(val) {
 			return fmt.Errorf("cannot update v3")
 		}
-		if !next.Add(types.NewValidator(valKey(4).PubKey(), 3, true)) {
+		if !next.Add(types.NewValidator(valKey(4).PubKey(), 5, true)) {
 			return fmt.Errorf("cannot add v4")
 		}
 	}
@@ -375,7 +375,7 @@ func buildChain(walDir string) (*chain, error) {
 		}
 	}
 	if bytes.Equal(c.vals[changeHeight].Hash(), c.vals[changeHeight+1].Hash()) || c.vals[changeHeight+1].Size() != 5 ||
-		c.vals[changeHeight+1].TotalVotingPower() != 12 {
+		c.vals[changeHeight+1].TotalVotingPower() != 14 { // 14 mod 3 == 2 while the genesis total 6 mod 3 == 0: both residues that matter for quorum arithmetic
 		return nil, fmt.Errorf("validator-set change did not happen")
 	}
 	hsh := sha256.New()
